@@ -2,6 +2,7 @@
 import csv
 import io
 import json
+import locale
 import os
 import re
 import shutil
@@ -327,13 +328,22 @@ def run(ctx):
             except Exception as exc:  # noqa
                 ctx.oracle_fail(f"VTK export is not parseable by the subset grammar ({type(exc).__name__}: {exc})",
                                 {"attrs": len(attrs)})
-            # fragment links
+            # fragment links (the CSV is a text file in the platform's preferred encoding, which is what the tool
+            # opens it with; names outside ASCII are used whenever that encoding can write them)
+            csv_encoding = locale.getpreferredencoding(False)
+            fragment_names = ["m1", "frag-a", "b:0", "x y"]
+            for cand in ("fr\u00e4gment", "\u00df-1", "\u7247\u0031", "caf\u00e9 2"):
+                try:
+                    cand.encode(csv_encoding)
+                    fragment_names.append(cand)
+                except (UnicodeError, LookupError):
+                    pass
             rows = []
             labels = rng.sample([0, 1, 10, 255, 2**31, 2**53 + 1, 1234567890123456789, 2**64 - 1, 77], rng.randrange(1, 5))
             for lab in labels:
-                rows.append([str(lab)] + [rng.choice(["m1", "frag-a", "b:0", "x y"]) for _ in range(rng.randrange(0, 4))])
+                rows.append([str(lab)] + [rng.choice(fragment_names) for _ in range(rng.randrange(0, 4))])
             cpath = os.path.join(tmp, "links.csv")
-            with open(cpath, "w", newline="") as f:
+            with open(cpath, "w", newline="", encoding=csv_encoding) as f:
                 csv.writer(f).writerows(rows)
             nocolon = rng.random() < 0.5
             try:
